@@ -99,6 +99,7 @@ fn main() {
         let shared = Arc::new(parent.clone());
         let barrier = Barrier::new(THREADS);
         let mut results: Vec<Vec<(Action, String)>> = Vec::new();
+        let mut light_results: Vec<Vec<(Action, String)>> = Vec::new();
         std::thread::scope(|sc| {
             let mut hs = Vec::new();
             for t in 0..THREADS {
@@ -128,11 +129,28 @@ fn main() {
                             }
                         }
                     }
-                    out
+                    // fast passes: expand and ask only the move-generation queries, ten times over - the children
+                    // share the parent's history list, so its nodes are read by all threads at once
+                    let mut light = Vec::new();
+                    for pass in 0..10 {
+                        let mut order: Vec<usize> = (0..norep.len()).collect();
+                        trng.shuffle(&mut order);
+                        for &k in order.iter() {
+                            let src: &GameState = if (t + pass) % 2 == 0 { by_ref } else { &by_arc };
+                            let d = match guarded(|| light_digest(&src.take_action(&norep[k]))) {
+                                Ok(d) => d,
+                                Err(p) => format!("panic:{}", p),
+                            };
+                            light.push((norep[k], d));
+                        }
+                    }
+                    (out, light)
                 }));
             }
             for h in hs {
-                results.push(h.join().unwrap_or_default());
+                let (a, b) = h.join().unwrap_or_default();
+                results.push(a);
+                light_results.push(b);
             }
         });
         drop(shared);
@@ -150,6 +168,16 @@ fn main() {
                     g.tr.tdig(t + 1, a, d, pop);
                 }
                 pop = 0;
+            }
+        }
+        // of the fast passes only one digest per (thread, action, distinct answer) is logged
+        for (t, r) in light_results.iter().enumerate() {
+            let mut seen_l: std::collections::HashSet<(Action, String)> = std::collections::HashSet::new();
+            for (a, d) in r.iter() {
+                if seen_l.insert((*a, d.clone())) {
+                    g.tr.tdig_kind(t + 1, a, d, pop, true);
+                    pop = 0;
+                }
             }
         }
         if !g.tr.reobs(&parent, pop) {
